@@ -14,6 +14,7 @@ import (
 	"encoding/hex"
 	"fmt"
 	"io"
+	"math/rand"
 	"net"
 	"net/http"
 	"os"
@@ -156,21 +157,33 @@ type l3 struct {
 	runErr  chan error
 }
 
+var portRng = rand.New(rand.NewSource(int64(os.Getpid())*7919 + time.Now().UnixNano()))
+
+// freePort picks a loopback port below the kernel's ephemeral range (so that neither another process' connect
+// nor its ":0" listener is handed the same number a moment later) that can be bound right now.
 func freePort() int {
-	l, err := net.Listen("tcp", "127.0.0.1:0")
-	if err != nil {
-		panic(pbt.HarnessError{Msg: "probe port: " + err.Error()})
+	for i := 0; i < 200; i++ {
+		p := 10000 + portRng.Intn(22000)
+		l, err := net.Listen("tcp", fmt.Sprintf("127.0.0.1:%d", p))
+		if err != nil {
+			continue
+		}
+		_ = l.Close()
+		return p
 	}
-	p := l.Addr().(*net.TCPAddr).Port
-	_ = l.Close()
-	return p
+	panic(pbt.HarnessError{Msg: "no free loopback port found"})
 }
 
 var l3mu sync.Mutex // one listener-owning instance at a time in this process
+var l3seq int
 
 // newL3 starts lal with HLS enabled.  mod may adjust the configuration further.
+//
+// Other processes (shards, other checks) probe ports at the same time, so "something accepts connections on
+// the port" does not mean it is this instance: a probe playlist with a unique content is planted in this
+// instance's HLS root and must come back through the listener before the instance is used.
 func newL3(cfg inproc.Config, mod func(c *logic.Config)) *l3 {
-	for attempt := 0; attempt < 5; attempt++ {
+	for attempt := 0; attempt < 8; attempt++ {
 		port := freePort()
 		addr := fmt.Sprintf("127.0.0.1:%d", port)
 		cfg.Hls = true
@@ -184,25 +197,37 @@ func newL3(cfg inproc.Config, mod func(c *logic.Config)) *l3 {
 		}
 		s := inproc.New(cfg)
 		x := &l3{Server: s, HlsAddr: addr, runErr: make(chan error, 1)}
+		l3seq++
+		probeName := fmt.Sprintf("c14probe%dx%d", os.Getpid(), l3seq)
+		nonce := fmt.Sprintf("#C14-PROBE %s %d", probeName, time.Now().UnixNano())
+		probeDir := filepath.Join(s.Cfg.HlsConfig.OutPath, probeName)
+		if err := os.MkdirAll(probeDir, 0o755); err != nil {
+			panic(pbt.HarnessError{Msg: "probe dir: " + err.Error()})
+		}
+		if err := os.WriteFile(filepath.Join(probeDir, "playlist.m3u8"), []byte(nonce), 0o644); err != nil {
+			panic(pbt.HarnessError{Msg: "probe file: " + err.Error()})
+		}
+		target := "/hls/" + probeName + ".m3u8?lal_secret=" + refSecret(cfg.SimpleAuth.Key, probeName)
 		go func() { x.runErr <- s.SM.RunLoop() }()
 		deadline := time.Now().Add(lalclient.IdleTimeout)
 		up := false
+	wait:
 		for time.Now().Before(deadline) {
 			select {
-			case err := <-x.runErr:
-				x.runErr <- err
-				deadline = time.Now() // listen failed (port taken in the meantime): retry
-				continue
+			case <-x.runErr:
+				break wait // a listen failed (port taken in the meantime): retry on another port
 			default:
 			}
-			c, err := net.DialTimeout("tcp", addr, time.Second)
+			r, err := rawGet(addr, "", target)
 			if err == nil {
-				_ = c.Close()
-				up = true
-				break
+				if bytes.Contains(r.Body, []byte(nonce)) {
+					up = true
+				}
+				break wait // answered by this instance, or by someone else's: then retry elsewhere
 			}
 			time.Sleep(2 * time.Millisecond)
 		}
+		_ = os.RemoveAll(probeDir)
 		if up {
 			return x
 		}
@@ -219,6 +244,14 @@ type httpResp struct {
 	At     time.Time // when the response had been read completely
 }
 
+// dialError marks a failure to connect (as opposed to a connection the server accepted and then closed).
+type dialError struct{ error }
+
+func isDialError(err error) bool {
+	_, ok := err.(dialError)
+	return ok
+}
+
 // rawGet sends "GET <target> HTTP/1.1" verbatim from localIP ("" = any) and reads the response.
 func rawGet(addr, localIP, target string) (*httpResp, error) {
 	d := net.Dialer{Timeout: lalclient.IdleTimeout}
@@ -227,7 +260,7 @@ func rawGet(addr, localIP, target string) (*httpResp, error) {
 	}
 	c, err := d.Dial("tcp", addr)
 	if err != nil {
-		return nil, err
+		return nil, dialError{err}
 	}
 	defer c.Close()
 	_ = c.SetDeadline(time.Now().Add(lalclient.DeliverTimeout))
